@@ -391,7 +391,7 @@ def rule_foreign_feedback_table(ctx, idx, T, rid="R03.8"):
             name = lc(t) if t not in (OTHER, EMPTY) else None
             try:
                 v = it2.call_fn(sl, [t], self_env={"self.current_ns": ns})
-                w = it2.call_fn(ce, [t], self_env={"self.ns_stack": Sym("stack"), "<prev_ns>": ns})
+                w = it2.call_fn(ce, [t], self_env={"self.ns_stack": Sym("stack"), "<prev_ns>": ns, "self.current_ns": "Namespace::Html"})
             except EngineError as e:
                 raise EngineError(rid + ": " + str(e))
             key = "end|%s|%s" % (ns.split("::")[-1], t)
